@@ -1,6 +1,7 @@
 """Harness registry: property id -> harness module."""
 
 REGISTRY = {
+    "C01": "harness.c01_reliable",
     "C05": "harness.c05_nocrash",
     "C07": "harness.c07_rtp",
     "C08": "harness.c08_sctp",
